@@ -24,7 +24,7 @@ SPEC_NAMES = {"forall", "exists", "implies", "old", "has", "get", "result", "iff
               "card", "is_some", "the", "select", "store", "subset", "inrange", "cls_is", "same_obj", "let",
               "dom_eq", "unchanged", "nth", "Seq", "contains", "distinct", "sub", "count_in", "spec_call", "pre",
               "image_has", "inj", "keys_of", "ghost", "concat", "empty_seq", "isNone", "notNone", "eq", "view_of",
-              "kind_of"}
+              "kind_of", "elems"}
 
 
 class Evaluator(Interp):
@@ -331,7 +331,7 @@ class Evaluator(Interp):
                 return self.seq_repeat(b, self.coerce(a, TInt).term, fr)
         if isinstance(op, ast.BitOr) and isinstance(a, SV) and isinstance(a.ty, TSet):
             bb = self.coerce(b, a.ty)
-            k = self.fresh("uk", a.ty.k.sort())
+            k = self.bound("uk", a.ty.k.sort())
             return SV(a.ty, z3.Lambda([k], z3.Or(z3.Select(a.term, k), z3.Select(bb.term, k))))
         raise Unsupported(f"binop {type(op).__name__} on {a}, {b}")
 
@@ -364,7 +364,7 @@ class Evaluator(Interp):
         s = self.seq_of(s)
         r = self.fresh("rep", s.ty.sort())
         ln = z3.Length(s.term)
-        i = self.fresh("ri", z3.IntSort())
+        i = self.bound("ri", z3.IntSort())
         tot = z3.If(n > 0, n * ln, z3.IntVal(0))
         self.assume(z3.Length(r) == tot)
         # element i of the repetition is element i mod len of the source (exact for len 1)
@@ -466,7 +466,7 @@ class Evaluator(Interp):
             if isinstance(b.ty, TSeq):
                 if self.eq_is_structural(b.ty.elem):
                     return z3.Contains(b.term, z3.Unit(self.coerce(a, b.ty.elem).term))
-                i = self.fresh("ini", z3.IntSort())
+                i = self.bound("ini", z3.IntSort())
                 return z3.Exists([i], z3.And(i >= 0, i < z3.Length(b.term), self.py_eq(SV(b.ty.elem, b.term[i]), a, fr)))
             if b.ty is TStr and isinstance(a, SV) and a.ty is TStr:
                 return z3.Contains(b.term, a.term)
@@ -591,7 +591,10 @@ class Evaluator(Interp):
 
     def e_Slice(self, node, fr):
         def part(x):
-            return NONE if x is None else self.eval(x, fr)
+            if x is None:
+                o = TOpt(TInt)
+                return SV(o, o.none())
+            return self.eval(x, fr)
         return VSlice(part(node.lower), part(node.upper), part(node.step))
 
     def e_Subscript(self, node, fr):
@@ -625,6 +628,8 @@ class Evaluator(Interp):
                 if not fr.pure:
                     if not self.branch(present):
                         self.raise_exc("KeyError", idx)
+                elif getattr(fr, "pure_code", False):
+                    self.oblige_pure("pure-key-present", present, site=("pkey", getattr(node, "lineno", 0)))
                 return self.assume_wf(SV(t.v, z3.Select(t.val(base.term), k)))
             if isinstance(t, TSeq) or t is TStr:
                 ln = z3.Length(base.term)
@@ -639,6 +644,9 @@ class Evaluator(Interp):
                         self.raise_exc("IndexError")
                     if self.branch(i < 0):
                         i = i + ln
+                elif getattr(fr, "pure_code", False):
+                    self.oblige_pure("pure-subscript-in-range", z3.And(i >= -ln, i < ln), site=("psub", getattr(node, "lineno", 0)))
+                    i = z3.If(i < 0, i + ln, i)
                 if t is TStr:
                     return SV(TStr, z3.SubString(base.term, i, 1))
                 return self.assume_wf(SV(t.elem, base.term[i]))
@@ -746,6 +754,7 @@ class Evaluator(Interp):
         nfr.heap_override = fr.heap_override
         nfr.ghost = lam.frame.ghost
         nfr.contract = lam.frame.contract
+        nfr.pure_code = getattr(lam.frame, "pure_code", False)
         names = [a.arg for a in lam.node.args.args]
         if len(names) != len(args):
             raise Unsupported("lambda arity")
@@ -841,7 +850,7 @@ class Evaluator(Interp):
     def call_function(self, fi: FuncInfo, args, kwargs, fr, recv_cls=None):
         """Call a repo function: by contract if one exists (and we are not verifying through it
         as `inline`), otherwise by symbolically executing its real body."""
-        con = self.cdb.contract_for(fi, recv_cls)
+        con = self.cdb.contract_for(fi, recv_cls, args, kwargs)
         if con is not None and not con.inline and not (fr.pure and con.pure_inline):
             return self.cdb.apply_contract(self, con, fi, args, kwargs, fr)
         if fi.is_stub:
@@ -855,7 +864,8 @@ class Evaluator(Interp):
         nfr.heap_override = fr.heap_override
         nfr.env = env
         nfr.ghost = fr.ghost if fr.pure else {}
-        nfr.contract = self.cdb.contract_for(fi, recv_cls)
+        nfr.pure_code = getattr(fr, "pure_code", False)
+        nfr.contract = self.cdb.contract_for(fi, recv_cls, args, kwargs)
         self.depth += 1
         if self.depth > 40:
             raise Unsupported(f"call depth exceeded at {fi.qname}")
